@@ -27,6 +27,9 @@ var mixMedia = []string{"application/json", "application/xml", "text/plain"}
 var mixSchemes = []string{"http", "https", "ws"}
 var mixOpIDs = []string{"list", "get", "create", "delete", "update", "find"}
 
+// stems of ids that look like the result of a rename; never used as ids themselves
+var mixLookalikeStems = []string{"sync", "job"}
+
 func genMixinDoc(r *R, tag string, usedIDs map[string]bool, idlessPct int) obj {
 	doc := obj{"swagger": "2.0"}
 	sub := func(pool []string, pct int) []string {
@@ -190,6 +193,11 @@ func genMixinDoc(r *R, tag string, usedIDs map[string]bool, idlessPct int) obj {
 						if r.P(30) {
 							id += fmt.Sprint(r.Intn(3))
 						}
+						if r.P(12) {
+							// an id that merely looks renamed: '<stem>Mixin<k>' where <stem> is no operation id of any document
+							// (inside C18's precondition, which only excludes '<id>Mixin<N>' of ANOTHER id)
+							id = r.Pick(mixLookalikeStems) + "Mixin" + fmt.Sprint(r.Intn(3))
+						}
 						if !usedIDs[id] {
 							usedIDs[id] = true
 							op["operationId"] = id
@@ -237,10 +245,30 @@ func genMixinCase(prop string, thorough bool, r *R, seed uint64, index int64) *C
 }
 
 var reMixinSuffix = regexp.MustCompile(`Mixin[0-9]+$`)
+var reMixinAnywhere = regexp.MustCompile(`Mixin[0-9]+`)
+var reMixinSuffixes = regexp.MustCompile(`^(Mixin[0-9]+)+$`)
 
-// mixinPrecondition: operation ids unique within each document and none of the form <id>Mixin<N> (C18).
+// mixinPrecondition: operation ids unique within each document and none of the form <id>Mixin<N> of another id (C18).
 func mixinPrecondition(c *Case) bool {
 	docs := append([]string{c.Primary}, c.Mixins...)
+	all := map[string]bool{}
+	for _, d := range docs {
+		if v, err := parseJSON([]byte(d)); err == nil {
+			forEachOp(v, func(path, method string, op obj) {
+				if id, _ := op["operationId"].(string); id != "" {
+					all[id] = true
+				}
+			})
+		}
+	}
+	for id := range all {
+		for _, loc := range reMixinAnywhere.FindAllStringIndex(id, -1) {
+			// id = <stem>Mixin<N><rest>: outside the precondition when <stem> is itself an id and <rest> is empty or again suffixes
+			if all[id[:loc[0]]] && reMixinSuffixes.MatchString(id[loc[0]:]) {
+				return false
+			}
+		}
+	}
 	for _, d := range docs {
 		v, err := parseJSON([]byte(d))
 		if err != nil {
@@ -253,7 +281,7 @@ func mixinPrecondition(c *Case) bool {
 			if id == "" {
 				return
 			}
-			if seen[id] || reMixinSuffix.MatchString(id) {
+			if seen[id] {
 				ok = false
 			}
 			seen[id] = true
